@@ -1,7 +1,7 @@
 #!/usr/bin/env python3
 """dev helper: run TLC on module/cfg pairs, print a one-line summary and a short error excerpt"""
 import re, sys
-sys.path.insert(0, '/verif/harness')
+import os; sys.path.insert(0, os.path.join(os.path.dirname(os.path.dirname(os.path.abspath(__file__))), 'harness'))
 import tlc
 mod = sys.argv[1]
 for c in sys.argv[2:]:
